@@ -179,7 +179,7 @@ func genRender(t *Tracer, m *Meta, tier string, seed int64) {
 	quick := tier == "quick"
 	budgetU := 1200
 	if !quick {
-		budgetU = 30000
+		budgetU = 16000
 	}
 	for ui, u := range universes {
 		total := u.EachKeyList(1<<30, 1, func([]string) {})
